@@ -138,10 +138,18 @@ var svStreamMethods = map[string]int{"CStream": 1, "SStream": 2, "Bidi": 3}
 
 // svMethodKind classifies a raw method string: the real parser, then the table the harness registered.
 func svMethodKind(raw string) string {
-	svc, m, err := goat.VerifParseRawMethod(raw)
-	if err != nil {
+	// the rig's own reading of a method string (Model/Method.v: one leading slash is optional, the LAST slash separates
+	// service and method, no slash = unparsable) - not the parser under test: a parser that panics or misreads must not
+	// take the rig's bookkeeping with it; C12Shape cases tie this table to the model, C12Method cases the real parser
+	sm := raw
+	if sm != "" && sm[0] == '/' {
+		sm = sm[1:]
+	}
+	pos := strings.LastIndex(sm, "/")
+	if pos == -1 {
 		return "MBad"
 	}
+	svc, m := sm[:pos], sm[pos+1:]
 	if svc != svcName {
 		return "MUnkSvc"
 	}
